@@ -38,7 +38,8 @@ REL = ["Generation", "Usage", "Communication", "Start", "End", "Invalidation", "
        "Influence", "Specialization", "Alternate", "Membership"]
 PLAIN_ONLY = {"Attribution", "Communication", "Delegation", "Influence", "Specialization", "Alternate", "Membership"}
 STR = ["a", "hello world", "café 世界", 'say "hi"', "line1\nline2", "", "5", "true", "a<b&c", " lead", "tab\there"]
-NSS = [("ex", "http://example.org/"), ("dn", "http://other/ns#"), ("ex2", "http://a/b/"), ("u", "urn:x:"), ("act", "http://example.org/activity/")]
+NSS = [("ex", "http://example.org/"), ("dn", "http://other/ns#"), ("ex2", "http://a/b/"), ("u", "urn:x:"), ("act", "http://example.org/activity/"),
+       ("doi", "https://doi.org/")]
 ATTR_LOCALS = ["attr", "activityLevel", "entityCount", "agentCode", "qualifiedBy", "plan", "time2", "role", "asInBundleX", "location", "used2"]
 KNOWN = {
     "identified-alternate": "C07:identified-alternate",
@@ -104,6 +105,10 @@ class RdfBuilder:
             return self.zone(datetime.datetime(r.choice([1970, 2012, 2024]), r.randint(1, 12), r.randint(1, 28), r.randint(0, 23),
                                                r.randint(0, 59), r.randint(0, 59), r.choice([0, 0, 250000, 5000, 42])))
         if k < 0.9:
+            if r.random() < 0.25:
+                # a name Turtle cannot abbreviate (its local part has a slash): written as a full IRI; when nothing else of that
+                # namespace is written in abbreviated form the text carries no @prefix line for it
+                return QualifiedName(r.choice(self.nss), r.choice(["10.5281/zenodo.%d", "a/b%d", "p/q/r%d"]) % r.randint(0, 4))
             return self.name()
         return Identifier("http://example.org/id/" + str(r.randint(0, 9)))
 
